@@ -1157,3 +1157,282 @@ Proof.
   - apply (nodup_of_count_le _ _ Hg). intros x. rewrite Hcbs. apply count_cleanups_le_closes.
   - exists tops. split; [|exact Hev]. rewrite Hcbs. apply t_fanout_refines.
 Qed.
+
+(* ---------- outbound connects are announced at most once (what C04 assumes of the engine) ---------- *)
+Definition is_conn_of (i : N) (e : ev) : bool := match e with EvConnect j => j =? i | _ => false end.
+Definition nconn (l : list ev) (i : N) : nat := length (filter (is_conn_of i) l).
+Lemma nconn_app a b i : nconn (a ++ b) i = (nconn a i + nconn b i)%nat.
+Proof. unfold nconn. now rewrite filter_app, app_length. Qed.
+Lemma nconn_le_proj l i : proj l i = [] -> nconn l i = 0%nat.
+Proof.
+  intros H. unfold nconn. rewrite proj_nil_iff in H.
+  induction l as [|e l IH]; [reflexivity|]. cbn [filter].
+  destruct (is_conn_of i e) eqn:E.
+  - exfalso. destruct e; try discriminate. cbn in E. apply N.eqb_eq in E. subst. apply (H (EvConnect i)); [now left|reflexivity].
+  - apply IH. intros e' He'. apply H. now right.
+Qed.
+Lemma ph_none_proj_nil l i : ph l i = Some PNone -> proj l i = [].
+Proof.
+  unfold ph. destruct (proj l i) as [|e t]; [reflexivity|]. cbn [phase_run].
+  destruct (phase_step PNone e) as [p|] eqn:E; [|discriminate].
+  assert (p <> PNone) by (destruct e; cbn in E; inversion E; discriminate).
+  intros Hr. exfalso. clear E.
+  revert p H Hr. induction t as [|e' t IH]; intros p Hp Hr; cbn [phase_run] in Hr; [congruence|].
+  destruct (phase_step p e') as [q|] eqn:E2; [|discriminate].
+  apply (IH q); [|exact Hr]. destruct p, e'; cbn in E2; inversion E2; try discriminate; congruence.
+Qed.
+
+(* issued sessions: the handshake flag is never set once connectPending is cleared *)
+Definition ainv (s : est) : Prop :=
+  forall i x, In i (e_issued s) -> aget (e_tab s) i = Some x -> s_cpend x = false -> s_hs x = false.
+Definition oinv (s : est) (log : list ev) : Prop :=
+  ainv s /\ forall i, In i (e_issued s) -> (nconn log i <= 1)%nat.
+
+(* the only events a step emits about an issued identifier that are connects come when nothing was logged for it *)
+Definition fresh_connects (s : est) (log evs : list ev) : Prop :=
+  forall i, In i (e_issued s) -> (nconn evs i <= 1)%nat /\ (nconn evs i = 1%nat -> proj log i = []).
+
+Lemma oinv_extend s s' log evs :
+  (forall i, In i (e_issued s') -> In i (e_issued s) \/ proj log i = [] /\ nconn evs i = 0%nat) ->
+  ainv s' -> oinv s log -> fresh_connects s log evs -> oinv s' (log ++ evs).
+Proof.
+  intros Hi Ha [_ Hc] Hf. split; [exact Ha|]. intros i Hin. rewrite nconn_app.
+  destruct (Hi i Hin) as [Hold|[Hp Hz]].
+  - destruct (Hf i Hold) as [Hle H1]. specialize (Hc i Hold).
+    destruct (nconn evs i) as [|[|n]] eqn:E; [lia| |lia].
+    rewrite (nconn_le_proj _ _ (H1 eq_refl)). lia.
+  - rewrite (nconn_le_proj _ _ Hp), Hz. lia.
+Qed.
+
+Lemma ainv_ext s s' : e_tab s' = e_tab s -> e_issued s' = e_issued s -> ainv s -> ainv s'.
+Proof. unfold ainv. intros -> ->. auto. Qed.
+Lemma ainv_set s s' sid x :
+  e_tab s' = aset (e_tab s) sid x -> e_issued s' = e_issued s ->
+  (In sid (e_issued s) -> s_cpend x = false -> s_hs x = false) -> ainv s -> ainv s'.
+Proof.
+  unfold ainv. intros -> -> Hx H i y Hi. rewrite aget_aset. destruct (sid =? i) eqn:E.
+  - apply N.eqb_eq in E. subst i. intros Hy. injection Hy as <-. now apply Hx.
+  - now apply H.
+Qed.
+Lemma ainv_del s s' sid : e_tab s' = adel (e_tab s) sid -> e_issued s' = e_issued s -> ainv s -> ainv s'.
+Proof.
+  unfold ainv. intros -> -> H i y Hi. rewrite aget_adel. destruct (sid =? i); [discriminate|now apply H].
+Qed.
+
+Lemma ainv_close_now s sid : ainv s -> ainv (fst (close_now s sid)).
+Proof.
+  intros H. unfold close_now. destruct (aget (e_tab s) sid); cbn [fst]; [|exact H].
+  eapply ainv_del; [reflexivity|reflexivity|exact H].
+Qed.
+Lemma nconn_close_now s sid i : nconn (snd (close_now s sid)) i = 0%nat.
+Proof. unfold close_now. destruct (aget (e_tab s) sid); reflexivity. Qed.
+
+Definition conn_of_cmd (c : cmd) (i : N) : nat := match c with CConnect sid _ => if sid =? i then 1%nat else 0%nat | _ => 0%nat end.
+
+Lemma exec_cmd_facts s c co so :
+  ainv s -> ainv (fst (exec_cmd s c co so)) /\ e_issued (fst (exec_cmd s c co so)) = e_issued s /\
+  forall i, (nconn (snd (exec_cmd s c co so)) i <= conn_of_cmd c i)%nat.
+Proof.
+  intros H. destruct c as [sid tls|sid o|sid]; cbn [exec_cmd conn_of_cmd].
+  - destruct co.
+    + cbn [fst snd]. split; [exact H|]. split; [reflexivity|]. intros i. cbn. lia.
+    + cbn [fst snd]. split; [eapply (ainv_set s _ sid); [reflexivity|reflexivity| |exact H]; cbn; discriminate|].
+      split; [reflexivity|]. intros i. cbn. lia.
+    + destruct tls; cbn [fst snd].
+      * split; [eapply (ainv_set s _ sid); [reflexivity|reflexivity| |exact H]; cbn; discriminate|].
+        split; [reflexivity|]. intros i. cbn. lia.
+      * split; [eapply (ainv_set s _ sid); [reflexivity|reflexivity| |exact H]; cbn; auto|].
+        split; [reflexivity|]. intros i. unfold nconn. cbn [filter is_conn_of]. destruct (sid =? i); cbn; lia.
+    + assert (Hi : ainv (insert s sid (mkS true tls false))).
+      { eapply (ainv_set s _ sid); [reflexivity|reflexivity| |exact H]. cbn. discriminate. }
+      pose proof (ainv_close_now _ sid Hi) as Hc. pose proof (close_now_frame (insert s sid (mkS true tls false)) sid) as Hf.
+      pose proof (nconn_close_now (insert s sid (mkS true tls false)) sid) as Hn.
+      destruct (close_now (insert s sid (mkS true tls false)) sid) as [s' e]. cbn [fst snd] in *.
+      split; [exact Hc|]. split; [tauto|]. intros i. rewrite Hn. lia.
+  - destruct (aget (e_tab s) sid) as [x|]; [|cbn; split; [exact H|split; [reflexivity|intros; cbn; lia]]].
+    destruct (revalidate o x); [|cbn; split; [exact H|split; [reflexivity|intros; cbn; lia]]].
+    split; [now apply ainv_close_now|]. split; [apply close_now_frame|]. intros i. rewrite nconn_close_now. lia.
+  - destruct (aget (e_tab s) sid) as [x|] eqn:Ex; [|cbn; split; [exact H|split; [reflexivity|intros; cbn; lia]]].
+    destruct so; cbn [fst snd].
+    + split; [exact H|split; [reflexivity|intros; cbn; lia]].
+    + split; [|split; [reflexivity|intros; cbn; lia]].
+      eapply (ainv_set s _ sid); [reflexivity|reflexivity| |exact H]. cbn. intros Hi. exact (H sid x Hi Ex).
+    + split; [now apply ainv_close_now|]. split; [apply close_now_frame|]. intros i. rewrite nconn_close_now. lia.
+    + split; [now apply ainv_close_now|]. split; [apply close_now_frame|]. intros i. rewrite nconn_close_now. lia.
+Qed.
+
+Lemma ainv_set_cmds s cs : ainv s -> ainv (set_cmds s cs).
+Proof. apply ainv_ext; reflexivity. Qed.
+
+Fixpoint count_cmds (cs : list cmd) (i : N) : nat :=
+  match cs with [] => 0%nat | c :: r => (conn_of_cmd c i + count_cmds r i)%nat end.
+
+Lemma exec_all_facts cs : forall s outs,
+  ainv s -> ainv (fst (exec_all s cs outs)) /\ e_issued (fst (exec_all s cs outs)) = e_issued s /\
+  forall i, (nconn (snd (exec_all s cs outs)) i <= count_cmds cs i)%nat.
+Proof.
+  induction cs as [|c cs IH]; intros s outs H; cbn [exec_all count_cmds].
+  - cbn [fst snd]. split; [now apply ainv_set_cmds|]. split; [reflexivity|]. intros i. cbn. lia.
+  - set (o := match outs with o :: _ => o | [] => (CoFailEarly, SoOk) end).
+    destruct (exec_cmd_facts (set_cmds s cs) c (fst o) (snd o) (ainv_set_cmds s cs H)) as (H1 & I1 & N1).
+    destruct (exec_cmd (set_cmds s cs) c (fst o) (snd o)) as [s1 e1]. cbn [fst snd] in *.
+    destruct (IH s1 (tl outs) H1) as (H2 & I2 & N2).
+    destruct (exec_all s1 cs (tl outs)) as [s2 e2]. cbn [fst snd] in *.
+    split; [exact H2|]. split; [now rewrite I2, I1|]. intros i. rewrite nconn_app. specialize (N1 i). specialize (N2 i). lia.
+Qed.
+
+Lemma close_all_facts ids : forall s,
+  ainv s -> ainv (fst (close_all s ids)) /\ e_issued (fst (close_all s ids)) = e_issued s /\
+  forall i, nconn (snd (close_all s ids)) i = 0%nat.
+Proof.
+  induction ids as [|x ids IH]; intros s H; cbn [close_all].
+  - cbn. auto.
+  - pose proof (ainv_close_now s x H) as H1. pose proof (close_now_frame s x) as F1. pose proof (nconn_close_now s x) as N1.
+    destruct (close_now s x) as [s1 e1]. cbn [fst snd] in *.
+    destruct (IH s1 H1) as (H2 & I2 & N2). destruct (close_all s1 ids) as [s2 e2]. cbn [fst snd] in *.
+    split; [exact H2|]. split; [rewrite I2; tauto|]. intros i. rewrite nconn_app, N1, N2. reflexivity.
+Qed.
+
+Lemma nconn_residual cs i : nconn (residual_closes cs) i = 0%nat.
+Proof.
+  unfold nconn, residual_closes. induction cs as [|c cs IH]; [reflexivity|]. cbn [flat_map].
+  rewrite filter_app, app_length, IH. destruct c; reflexivity.
+Qed.
+
+Lemma count_cmds_conn_ids cs i : count_cmds cs i = count_occ N.eq_dec (conn_ids cs) i.
+Proof.
+  induction cs as [|c cs IH]; [reflexivity|]. cbn [count_cmds conn_ids flat_map]. fold (conn_ids cs).
+  destruct c as [sid tls|sid o|sid]; cbn [conn_of_cmd app]; rewrite IH; [|reflexivity|reflexivity].
+  cbn [count_occ]. destruct (N.eq_dec sid i) as [->|Hn]; [now rewrite N.eqb_refl|].
+  apply N.eqb_neq in Hn. now rewrite Hn.
+Qed.
+
+Lemma nconn_single_other e i : (forall j, e <> EvConnect j) -> nconn [e] i = 0%nat.
+Proof. intros H. unfold nconn. cbn. destruct e; cbn; try reflexivity. exfalso. exact (H sid eq_refl). Qed.
+Lemma nconn_single_conn sid i : nconn [EvConnect sid] i = if sid =? i then 1%nat else 0%nat.
+Proof. unfold nconn. cbn. now destruct (sid =? i). Qed.
+
+Lemma oinv_same s s' log :
+  e_tab s' = e_tab s -> e_issued s' = e_issued s -> oinv s log -> oinv s' (log ++ []).
+Proof.
+  intros Ht Hi [Ha Hc]. rewrite app_nil_r. split; [now apply (ainv_ext s)|]. intros i. rewrite Hi. apply Hc.
+Qed.
+
+Lemma oinv_step s log o : einv s log -> oinv s log -> oinv (fst (estep s o)) (log ++ snd (estep s o)).
+Proof.
+  intros [H D] O. pose proof O as [Ha Hc].
+  assert (Hnil : forall s', e_tab s' = e_tab s -> e_issued s' = e_issued s -> oinv s' (log ++ [])) by (intros; now apply (oinv_same s)).
+  destruct o; cbn [estep].
+  - (* ApiConnect *)
+    assert (Hfresh : proj log (e_next s) = []) by (apply (proj_nil_of_lt s); [exact H|lia]).
+    assert (Hnt : forall x, aget (e_tab s) (e_next s) <> Some x).
+    { intros x Hx. apply aget_in_keys in Hx. pose proof (ci_tab_lt _ _ H _ Hx). lia. }
+    destruct (e_qclosed s); cbn [fst snd]; [apply Hnil; reflexivity|].
+    apply (oinv_extend s); [| |exact O|].
+    + cbn [e_issued]. intros i [<-|Hi]; [right; split; [exact Hfresh|reflexivity]|now left].
+    + intros i x. cbn [e_issued e_tab]. intros [<-|Hi] Hx; [exfalso; exact (Hnt _ Hx)|exact (Ha i x Hi Hx)].
+    + intros i _. cbn. split; [lia|discriminate].
+  - cbn [fst snd]. apply Hnil; unfold enqueue; destruct (e_qclosed s); reflexivity.
+  - cbn [fst snd]. apply Hnil; unfold enqueue; destruct (e_qclosed s); reflexivity.
+  - cbn [fst snd]. apply Hnil; unfold enqueue; destruct (e_qclosed s); reflexivity.
+  - (* IoCmd *)
+    destruct (e_drained s); [cbn [fst snd]; now apply Hnil|].
+    destruct (e_cmds s) as [|c rest] eqn:Ec; [cbn [fst snd]; now apply Hnil|].
+    destruct (exec_cmd_facts (set_cmds s rest) c co so (ainv_set_cmds s rest Ha)) as (A1 & I1 & N1).
+    apply (oinv_extend s); [| exact A1 | exact O |].
+    + rewrite I1. intros i Hi. now left.
+    + intros i Hi. specialize (N1 i). unfold conn_of_cmd in N1.
+      split; [destruct c as [sid0 tls0|sid0 oo|sid0]; try lia; destruct (sid0 =? i); lia|].
+      intros E1. rewrite E1 in N1. destruct c as [sid0 tls0|sid0 oo|sid0]; try lia.
+      destruct (sid0 =? i) eqn:E; [|lia]. apply N.eqb_eq in E. subst sid0.
+      apply (ci_queued _ _ H). rewrite Ec. cbn. now left.
+  - (* IoAccept *)
+    destruct (e_drained s); [cbn [fst snd]; now apply Hnil|]. cbn [fst snd].
+    apply (oinv_extend s); [| | exact O |].
+    + cbn. intros i Hi. now left.
+    + eapply (ainv_set s _ (e_next s)); [reflexivity|reflexivity| |exact Ha].
+      intros Hi. pose proof (ci_iss_lt _ _ H _ Hi). lia.
+    + intros i _. rewrite nconn_single_other by discriminate. split; [lia|discriminate].
+  - (* IoConnected *)
+    destruct (e_drained s); [cbn [fst snd]; now apply Hnil|].
+    destruct (aget (e_tab s) sid) as [x|] eqn:Ex; [|cbn [fst snd]; now apply Hnil].
+    destruct (s_cpend x && negb (s_hs x)) eqn:Eg; [|cbn [fst snd]; now apply Hnil].
+    apply andb_true_iff in Eg. destruct Eg as [Ecp _]. cbn [fst snd].
+    apply (oinv_extend s); [| | exact O |].
+    + cbn. intros i Hi. now left.
+    + eapply (ainv_set s _ sid); [reflexivity|reflexivity| |exact Ha]. cbn. auto.
+    + intros i _. rewrite nconn_single_conn. destruct (sid =? i) eqn:E; [|split; [lia|discriminate]].
+      apply N.eqb_eq in E. subst i. split; [lia|]. intros _. apply ph_none_proj_nil.
+      rewrite (ci_open _ _ H _ _ Ex). unfold sphase. now rewrite Ecp.
+  - (* IoHandshake *)
+    destruct (e_drained s); [cbn [fst snd]; now apply Hnil|].
+    destruct (aget (e_tab s) sid) as [x|] eqn:Ex; [|cbn [fst snd]; now apply Hnil].
+    destruct (s_hs x) eqn:Eh; [|cbn [fst snd]; now apply Hnil]. cbn [fst snd].
+    apply (oinv_extend s); [| | exact O |].
+    + cbn. intros i Hi. now left.
+    + eapply (ainv_set s _ sid); [reflexivity|reflexivity| |exact Ha]. cbn. auto.
+    + intros i Hi. rewrite nconn_single_conn. destruct (sid =? i) eqn:E; [|split; [lia|discriminate]].
+      apply N.eqb_eq in E. subst i. split; [lia|]. intros _. apply ph_none_proj_nil.
+      rewrite (ci_open _ _ H _ _ Ex). unfold sphase.
+      destruct (s_cpend x) eqn:Ecp; [reflexivity|]. pose proof (Ha sid x Hi Ex Ecp). congruence.
+  - (* IoData *)
+    destruct (e_drained s); [cbn [fst snd]; now apply Hnil|].
+    destruct (aget (e_tab s) sid) as [x|] eqn:Ex; [|cbn [fst snd]; now apply Hnil].
+    destruct (negb (s_cpend x) && negb (s_hs x)); cbn [fst snd]; [|now apply Hnil].
+    apply (oinv_extend s); [| exact Ha | exact O |].
+    + intros i Hi. now left.
+    + intros i _. rewrite nconn_single_other by discriminate. split; [lia|discriminate].
+  - (* IoDrained *)
+    destruct (e_drained s); [cbn [fst snd]; now apply Hnil|].
+    destruct (aget (e_tab s) sid) as [x|] eqn:Ex; [|cbn [fst snd]; now apply Hnil]. cbn [fst snd].
+    apply (oinv_extend s); [| | exact O |].
+    + cbn. intros i Hi. now left.
+    + eapply (ainv_set s _ sid); [reflexivity|reflexivity| |exact Ha]. cbn. intros Hi. exact (Ha sid x Hi Ex).
+    + intros i _. cbn. split; [lia|discriminate].
+  - (* IoFail *)
+    destruct (e_drained s); [cbn [fst snd]; now apply Hnil|].
+    apply (oinv_extend s); [| now apply ainv_close_now | exact O |].
+    + intros i Hi. left. pose proof (close_now_frame s sid) as F. destruct F as (_ & _ & _ & _ & F). now rewrite F in Hi.
+    + intros i _. rewrite nconn_close_now. split; [lia|discriminate].
+  - (* IoGc *)
+    destruct (e_drained s); [cbn [fst snd]; now apply Hnil|].
+    apply (oinv_extend s); [| now apply ainv_close_now | exact O |].
+    + intros i Hi. left. pose proof (close_now_frame s sid) as F. destruct F as (_ & _ & _ & _ & F). now rewrite F in Hi.
+    + intros i _. rewrite nconn_close_now. split; [lia|discriminate].
+  - (* StopDrain *)
+    destruct (e_drained s); [cbn [fst snd]; now apply Hnil|].
+    set (sd := mkE (e_next s) (e_tab s) (e_cmds s) false true (e_gauge s) (e_issued s)).
+    assert (Hsd : ainv sd) by (apply (ainv_ext s); [reflexivity|reflexivity|exact Ha]).
+    destruct (exec_all_facts (e_cmds s) sd outs Hsd) as (A1 & I1 & N1).
+    destruct (exec_all sd (e_cmds s) outs) as [s1 e1]. cbn [fst snd] in *.
+    destruct (close_all_facts (akeys (e_tab s1)) s1 A1) as (A2 & I2 & N2).
+    destruct (close_all s1 (akeys (e_tab s1))) as [s2 e2]. cbn [fst snd] in *.
+    apply (oinv_extend s); [| exact A2 | exact O |].
+    + rewrite I2, I1. intros i Hi. now left.
+    + intros i _. rewrite nconn_app, N2, Nat.add_0_r. specialize (N1 i). rewrite count_cmds_conn_ids in N1.
+      pose proof (proj1 (NoDup_count_occ N.eq_dec (conn_ids (e_cmds s))) (ci_q_nodup _ _ H) i) as Hnd.
+      split; [lia|]. intros E1. apply (ci_queued _ _ H). apply (count_occ_In N.eq_dec). lia.
+  - (* StopCloseQueue *)
+    destruct (e_qclosed s || negb (e_drained s)); cbn [fst snd]; [now apply Hnil|].
+    apply (oinv_extend s); [| | exact O |].
+    + cbn. intros i Hi. now left.
+    + apply (ainv_ext s); [reflexivity|reflexivity|exact Ha].
+    + intros i _. rewrite nconn_residual. split; [lia|discriminate].
+Qed.
+
+Lemma oinv_run ops : forall s log, einv s log -> oinv s log -> oinv (fst (erun s ops)) (log ++ snd (erun s ops)).
+Proof.
+  induction ops as [|o ops IH]; intros s log E O; cbn [erun].
+  - cbn [fst snd]. now rewrite app_nil_r.
+  - pose proof (einv_step s log o E) as E1. pose proof (oinv_step s log o E O) as O1.
+    destruct (estep s o) as [s1 e1]. cbn [fst snd] in *.
+    specialize (IH s1 (log ++ e1) E1 O1). destruct (erun s1 ops) as [s2 e2]. cbn [fst snd] in *.
+    now rewrite app_assoc.
+Qed.
+
+Lemma t_connect_once ops i :
+  In i (e_issued (fst (erun einit ops))) -> (nconn (snd (erun einit ops)) i <= 1)%nat.
+Proof.
+  assert (O0 : oinv einit []) by (split; [intros j x []|intros j []]).
+  pose proof (oinv_run ops einit [] einv_init O0) as [_ Hc]. cbn [app] in Hc. apply Hc.
+Qed.
